@@ -237,7 +237,7 @@ POSITIONS = {
 
 
 def u4(chk, repo):
-    chk.rule("U4", "translation law: the expressions of RotationalVelocity (omega x (r - cg)) and of the moment M = sum (r - cg) x F are unchanged when every position input (collocation / bound points and cg) is shifted by one common vector, using bilinearity and antisymmetry of the cross product", min_decided=2)
+    chk.rule("U4", "translation law: the expressions of RotationalVelocity (omega x (r - cg)) and of the moment M = sum (r - cg) x F are unchanged when every position input (collocation / bound points and cg) is shifted by one common vector, using bilinearity and antisymmetry of the cross product", min_decided=1)
     for cname, (rel, pos) in POSITIONS.items():
         c = repo.cls(rel, cname)
         m = component_model(repo, c, domains=(SymX,))
